@@ -248,6 +248,24 @@ def checkPure (ws : List String) (impl : String) : String :=
     | _ => "fail:simplify_failed"
   | _ => "-"
 
+/-- the order in which the harness writes the exported funds into the genesis it imports -/
+def genKey (g : GenFunds) : String :=
+  s!"{g.to}<{showSfx (createRecordSuffix g.unacc)}/{showCoins (Coins.canon g.coins)}/{boolStr g.declined}"
+
+def genOrder (l : List GenFunds) : List GenFunds :=
+  l.mergeSort fun a b => decide (genKey a ≤ genKey b)
+
+/-- export + import must not change what is on record (clause `genesis_roundtrip_loses_funds`),
+nor any balance -/
+def checkRegenesis (accts : List Addr) (tainted invOk : Bool) (p c : State) (ok : Bool) : String :=
+  let ds := allDenoms p c
+  if !ok then
+    firstFail [ (tainted, "genesis_import_failed"), (sameBalances accts p c ds && sameRecCoins p c ds, "rejected_changes_state") ]
+  else
+    firstFail (stateChecks tainted invOk c ds ++
+      [ (sameBalances accts p c ds, "genesis_roundtrip_moved_balances"),
+        (ds.all fun d => outstanding c d = outstanding p d, "genesis_roundtrip_loses_funds") ])
+
 def splitOut (s : String) : String × String :=
   match s.splitOn " ;; " with
   | [r, d] => (r, d)
@@ -269,6 +287,22 @@ def stepD (σ : DState) (opLine : String) (impl : Option String) : DState × Str
   match pureOp ws with
   | some out => (σ, out, match impl with | some i => checkPure ws i | none => "-")
   | none =>
+  if ws = ["regenesis"] then
+    let (m', res) := match regenesis σ.model genOrder with
+      | .ok s' => (s', "ok")
+      | .error e => (σ.model, e.toString)
+    let out := s!"{res} ;; {dump σ.accts m'}"
+    match impl with
+    | none => ({ σ with model := m' }, out, "-")
+    | some i =>
+      let (ires, idump) := splitOut i
+      match parseDump? holderName restrictedDenoms xferAddrs idump, σ.impl with
+      | some d, some p =>
+        ({ σ with model := m', impl := some d.st }, out,
+          checkRegenesis σ.accts σ.tainted d.invOk p d.st ((words ires).head? = some "ok"))
+      | some d, none => ({ σ with model := m', impl := some d.st }, out, "-")
+      | none, _ => ({ σ with model := m' }, out, "fail:unparsed_dump")
+  else
   match parseOp? ws with
   | none => (σ, "bad-op", "-")
   | some op =>
